@@ -213,14 +213,14 @@ Qed.
 Lemma view_cls w o cls v : view w o = Some (cls, v) -> exists ob, nth_error (objs w) o = Some ob /\ ocls ob = cls.
 Proof. unfold view. destruct (nth_error (objs w) o) as [ob|]; [|discriminate]. intros [= <- _]. eauto. Qed.
 
-Lemma exec_call_sim T cpa cpb c mn args chs wa oa wa' ra wb ob wb' rb cls v :
+Lemma exec_call_sim T (cpa cpb : world -> nat -> meth -> bool) c mn args chs wa oa wa' ra wb ob wb' rb cls v :
   good wa oa -> good wb ob -> view wa oa = Some (cls, v) -> view wb ob = Some (cls, v) ->
   find_class T cls = Some c -> call_self_only c (mn, args, chs) = true ->
   exec_call T cpa wa oa mn args chs [] = Some (wa', ra) -> exec_call T cpb wb ob mn args chs [] = Some (wb', rb) ->
   good wa' ra /\ good wb' rb /\ view wa' ra = view wb' rb /\ (exists v', view wa' ra = Some (cls, v'))
-  /\ (forall m, find_meth (cmeths c) mn = Some m -> cpa m = false -> ra = oa).
+  /\ (forall m, find_meth (cmeths c) mn = Some m -> cpa wa oa m = false -> ra = oa).
 Proof.
-  intros Ga Gb Va Vb FC CS Ha Hb. unfold exec_call in Ha, Hb.
+  intros Ga Gb Va Vb FC CS Ha Hb. unfold exec_call, lookup_call in Ha, Hb.
   destruct (view_cls _ _ _ _ Va) as (xa & Ea & Ca). destruct (view_cls _ _ _ _ Vb) as (xb & Eb & Cb).
   rewrite Ea in Ha. rewrite Eb in Hb. rewrite Ca, FC in Ha. rewrite Cb, FC in Hb.
   unfold call_self_only in CS. cbn [fst snd] in CS.
@@ -228,15 +228,16 @@ Proof.
   apply andb_prop in CS as [CR CF]. destruct (mret m) eqn:MR; try discriminate.
   destruct (forallb _ args) in Ha; cbn [negb] in Ha; [|discriminate].
   destruct (forallb _ args) in Hb; cbn [negb] in Hb; [|discriminate].
+  unfold exec_body in Ha, Hb. cbn [finish] in Ha, Hb.
   (* bodies *)
-  destruct (if cpa m then copy_obj wa oa (crecopy c) else Some (wa, oa)) as [[wa1 sa]|] eqn:Ka; [|discriminate].
-  destruct (if cpb m then copy_obj wb ob (crecopy c) else Some (wb, ob)) as [[wb1 sb]|] eqn:Kb; [|discriminate].
-  assert (good wa1 sa /\ view wa1 sa = view wa oa /\ (cpa m = false -> sa = oa)) as (Ga1 & Va1 & Sa).
-  { destruct (cpa m).
+  destruct (if cpa wa oa m then copy_obj wa oa (crecopy c) else Some (wa, oa)) as [[wa1 sa]|] eqn:Ka; [|discriminate].
+  destruct (if cpb wb ob m then copy_obj wb ob (crecopy c) else Some (wb, ob)) as [[wb1 sb]|] eqn:Kb; [|discriminate].
+  assert (good wa1 sa /\ view wa1 sa = view wa oa /\ (cpa wa oa m = false -> sa = oa)) as (Ga1 & Va1 & Sa).
+  { destruct (cpa wa oa m).
     - destruct (copy_view _ _ _ _ _ Ga Ka) as [G1 V1]. split; [auto|split; [auto|discriminate]].
     - inversion Ka; subst. split; [auto|split; auto]. }
   assert (good wb1 sb /\ view wb1 sb = view wb ob) as (Gb1 & Vb1).
-  { destruct (cpb m).
+  { destruct (cpb wb ob m).
     - destruct (copy_view _ _ _ _ _ Gb Kb) as [G1 V1]. split; auto.
     - inversion Kb; subst. split; auto. }
   destruct (run_effs wa1 sa args (meffs m) chs) as [wa2|] eqn:Ra; [|discriminate].
@@ -266,7 +267,7 @@ Proof.
     assert (oa1 = oa).
     { unfold call_self_only in C1. cbn [fst snd] in C1. destruct (find_meth (cmeths c) mn) as [m|] eqn:FM.
       - apply (Same m eq_refl). reflexivity.
-      - (* no such method: exec_call is stuck *) unfold exec_call in Ea.
+      - (* no such method: exec_call is stuck *) unfold exec_call, lookup_call in Ea.
         destruct (view_cls _ _ _ _ Va) as (xa & Exa & Ca). rewrite Exa, Ca, FC, FM in Ea. discriminate. }
     subst oa1. assert (V1b : view wb1 ob1 = Some (cls, v')) by (rewrite <- V1; auto).
     destruct (IH _ _ _ _ _ _ _ _ _ Ga1 Gb1 V1a V1b C2 Ha Hb) as [-> V2]. split; auto.
@@ -287,17 +288,22 @@ Proof.
 Qed.
 
 (* ---------- how run_chain relates to the history semantics ---------- *)
-Lemma exec_call_ext T cp cp' w o mn args chs wrap : (forall m, cp m = cp' m) ->
+(* for a row that does not delegate (everything but RCall) only the copy decision at the receiver matters *)
+Lemma exec_call_ext T (cp cp' : world -> nat -> meth -> bool) w o mn args chs wrap :
+  (forall m, cp w o m = cp' w o m) ->
+  (forall c m, lookup_call T w o mn = Some (c, m) -> is_rcall (mret m) = false) ->
   exec_call T cp w o mn args chs wrap = exec_call T cp' w o mn args chs wrap.
 Proof.
-  intros H. unfold exec_call. destruct (nth_error (objs w) o); auto. destruct (find_class T (ocls o0)); auto.
-  destruct (find_meth (cmeths c) mn); auto. now rewrite H.
+  intros H NR. unfold exec_call. destruct (lookup_call T w o mn) as [[c m]|] eqn:LC; auto.
+  specialize (NR c m eq_refl). rewrite H. destruct (mret m); try discriminate; reflexivity.
 Qed.
 
 (* on an object created with immutable=False a history step is the in-place call; otherwise it is the copying call *)
 Lemma exec_step_mutable T w o mn args chs wrap : immutable_false w o = true ->
-  exec_step T w (SCall o mn args chs wrap) = exec_call T (fun m => false && mcopies m) w o mn args chs wrap.
-Proof. intros H. cbn. apply exec_call_ext. intros m. unfold copies_now. rewrite H. cbn. apply andb_false_r. Qed.
+  (forall c m, lookup_call T w o mn = Some (c, m) -> is_rcall (mret m) = false) ->
+  exec_step T w (SCall o mn args chs wrap) = exec_call T (fun _ _ m => false && mcopies m) w o mn args chs wrap.
+Proof. intros H NR. cbn. apply exec_call_ext; auto. intros m. unfold copies_now. rewrite H. cbn. apply andb_false_r. Qed.
 Lemma exec_step_immutable T w o mn args chs wrap : immutable_false w o = false ->
-  exec_step T w (SCall o mn args chs wrap) = exec_call T (fun m => true && mcopies m) w o mn args chs wrap.
-Proof. intros H. cbn. apply exec_call_ext. intros m. unfold copies_now. rewrite H. cbn. apply andb_true_r. Qed.
+  (forall c m, lookup_call T w o mn = Some (c, m) -> is_rcall (mret m) = false) ->
+  exec_step T w (SCall o mn args chs wrap) = exec_call T (fun _ _ m => true && mcopies m) w o mn args chs wrap.
+Proof. intros H NR. cbn. apply exec_call_ext; auto. intros m. unfold copies_now. rewrite H. cbn. apply andb_true_r. Qed.
